@@ -49,6 +49,8 @@ def plan(tier, seed):
     specs[0]["extras"] = True
     # one long reference: 12 reference segments s1..s12 (ids cross the 9 -> 10 digit boundary) and one haplotype segment, walks of <= 2 steps
     specs.append({"layout": {"ref_lens": list(LONG_REF), "pattern": "one", "scale": 1}})
+    # and one of 70 unit segments (beyond any plausible "small contig" threshold), walks of <= 2 steps
+    specs.insert(0, {"layout": {"ref_lens": [1] * 70, "pattern": "one", "scale": 1}})  # the longest shard: scheduled first
     return specs
 
 
